@@ -88,6 +88,8 @@ func buildCorners(seed int64) (*Scenario, error) {
 	b.TxE(144, 145, "written in the unrated snapshot block", bob, Conv(Bo, EUR, 5*fct, USD))
 	rateOPR(145)
 	rateOPR(146)
+	// after 2.0.2 an output to the burn address is destroyed; the outputs listed after it are still paid
+	b.TxE(283, 283, "burn output first, then a recipient", alice, XferN(A, USD, Out(BurnAddr(), 10*fct), Out(Bo, 90*fct+uint64(rng.Intn(1000)))))
 	// second one, after 2.0.2
 	for h := uint32(284); h <= 287; h++ {
 		rateOPR(h)
